@@ -1,10 +1,20 @@
 package board
 
 import (
+	"os"
 	"testing"
 
 	"dst/sim"
 )
+
+// TestBoardChild is the entry point of a child writer process (see childProc).
+func TestBoardChild(t *testing.T) {
+	spec := os.Getenv("DST_BOARD_CHILD")
+	if spec == "" {
+		t.Skip("child entry point")
+	}
+	ChildMain(spec)
+}
 
 func TestWorker(t *testing.T) {
 	sim.WorkerMain(t, "board", RunOne)
